@@ -97,6 +97,9 @@ def leader_msg_arms(cx):
                 continue
             args = call_args(cx, c)
             m = [a for a in args[1:] if a[0] == "param" and is_param_of_adt(c.fn, a, "Message")]
+            if not m:
+                # the handler is given parts of the message (`handle_snapshot(m.from, m.take_snapshot())`)
+                m = [x for a in args[1:] for x in walk(a) if x[0] == "param" and is_param_of_adt(c.fn, x, "Message")][:1]
             if not m or callee.key in setters:
                 continue
             m = m[0]
@@ -113,10 +116,11 @@ def leader_msg_arms(cx):
             as_follower = _clause_holds(cx, c, st_in({"Follower"}), False)[0]
             as_cand = _clause_holds(cx, c, st_in({"Candidate", "PreCandidate"}), False)[0]
             if as_follower:
-                ez = {w.block for w in cx.prog.writes.get("RaftCore.election_elapsed", []) if w.fn is c.fn and "stmt" in w.data and write_value(cx, w) == ("int", 0) and _in_msg_arm(cx, w, {T}, depth=0)}
-                lz = {w.block for w in cx.prog.writes.get("RaftCore.leader_id", []) if w.fn is c.fn and "stmt" in w.data and write_value(cx, w) == ("field", m, "Message.from") and _in_msg_arm(cx, w, {T}, depth=0)}
-                ok1 = bool(ez) and (c.block in ez or g.dominated_by_block(c.at, lambda b: b in ez))
-                ok2 = bool(lz) and (c.block in lz or g.dominated_by_block(c.at, lambda b: b in lz))
+                ez = {w.block for w in cx.prog.writes.get("RaftCore.election_elapsed", []) if w.fn is c.fn and "stmt" in w.data and write_value(cx, w) == ("int", 0) and _in_msg_arm(cx, w, {"MsgAppend", "MsgHeartbeat", "MsgSnapshot"}, depth=0)}
+                lz = {w.block for w in cx.prog.writes.get("RaftCore.leader_id", []) if w.fn is c.fn and "stmt" in w.data and write_value(cx, w) == ("field", m, "Message.from") and _in_msg_arm(cx, w, {"MsgAppend", "MsgHeartbeat", "MsgSnapshot"}, depth=0)}
+                in_arm = [("in", ("field", m, "Message.msg_type"), frozenset([T]), MT)]
+                ok1 = bool(ez) and (c.block in ez or g.dominated_by_block(c.at, lambda b: b in ez, assume=in_arm))
+                ok2 = bool(lz) and (c.block in lz or g.dominated_by_block(c.at, lambda b: b in lz, assume=in_arm))
                 cx.check(ok1, key + ":timer", "a follower restarts its election timer on every %s from the leader" % T, c)
                 cx.check(ok2, key + ":leader", "a follower records the sender of a %s as its leader" % T, c)
                 kinds.add((T, "follower"))
@@ -197,6 +201,20 @@ def install_guards(cx):
         if member(l):
             it = l[1][2][0]
             chain = a.init_expr(it[1]) if it[0] == "local" else it
+    if chain is None or not any(contains(fld("ConfState." + n_), chain) for n_ in ("voters", "learners", "voters_outgoing")):
+        # the collections are tested one after the other (`a.contains(&id) || b.contains(&id) || ..`): every one of
+        # those tests that leads to the install counts
+        from ..idioms import self_member_lit
+        g_ = cx.pg(f)
+        parts = []
+        for n_ in range(len(g_.nodes)):
+            for _, ls_ in g_.edges[n_] or []:
+                for l in ls_:
+                    if l[0] == "is" and l[1][0] == "call" and l[1][1].endswith("::contains") and self_member_lit(cx.prog, l) is not None:
+                        it = l[1][2][0]
+                        parts.append(a.init_expr(it[1]) if it[0] == "local" and a.init_expr(it[1]) else it)
+        if parts:
+            chain = ("tuple", tuple(parts))
     for fld_name in ("voters", "learners", "voters_outgoing"):
         ok = chain is not None and (contains(fld("ConfState." + fld_name), chain) or any(x[0] == "call" and x[1].endswith("ConfState::get_" + fld_name) for x in walk(chain)))
         cx.check(ok, "member:" + fld_name, "the membership test looks at ConfState.%s (iterated: %s)" % (fld_name, show(chain)[:160] if chain else None))
@@ -343,22 +361,29 @@ def response(cx):
     inst = c.fn
     hs = [x.fn for x in callers_of(cx, inst)]
     n = 0
+    done_fns = set()
     for t in tmpls(cx, {"MsgAppendResponse"}):
         if t.fn not in hs:
             continue
         idx = t.get("index")
         gl = cx.guard_lits(t.site)
         restored = [l for l in gl if l[0] == "is" and l[1][0] == "call" and strip_generics(inst.key) == l[1][1]]
-        if not restored and idx is not None and idx[0] == "phi":
+        if not restored and idx is not None and (idx[0] == "phi" or t.fn.key not in done_fns):
+            if t.fn.key in done_fns:
+                continue
+            done_fns.add(t.fn.key)
             # one reply for both outcomes, its index chosen beforehand: `let ack = if self.restore(..) { last_index() }
             # else { committed }; reply.index = ack;` -- read the stored value per path
             g = cx.pg(t.fn)
             a = cx.prog.A(t.fn)
-            for w in cx.prog.writes.get("Message.index", []):
-                if w.fn is not t.fn or "stmt" not in w.data:
-                    continue
+            from ..engine import subst_phis
+            sites_ = [(w, (lambda env, w=w: a.expr_rvalue(w.data["stmt"]["rv"], w.at, 0, env))) for w in cx.prog.writes.get("Message.index", []) if w.fn is t.fn and "stmt" in w.data]
+            if not sites_ and idx[0] == "phi":
+                # the index reaches the reply through a constructor argument: the value chosen on each path to the send
+                sites_ = [(t.site, (lambda env, idx=idx: subst_phis(idx, env or {})))]
+            for w, ev in sites_:
                 try:
-                    rows = g.site_values(w.at, lambda env, w=w: a.expr_rvalue(w.data["stmt"]["rv"], w.at, 0, env))
+                    rows = g.site_values(w.at, ev)
                 except OverflowError:
                     continue
                 seen_rows = set()
